@@ -121,6 +121,17 @@ func (c *Ctx) drawIntn(info *types.Info, rel string, call *ast.CallExpr, stack [
 			if c.drawSwapHelper(info, key, arg, call, par, stack) {
 				return
 			}
+		case *ast.IndexExpr:
+			// uniform pick written inline: s[rand.Intn(len(s))]
+			if unparen(par.Index) == ast.Expr(call) {
+				want := "len(" + c.canon(info, par.X, nil) + ")"
+				if arg == want {
+					c.OK("DRAW", key, call.Pos(), "uniform pick: index drawn from the full length of the indexed slice")
+				} else {
+					c.Violation("DRAW", key, call.Pos(), "uniform pick from a slice must draw Intn("+want+"); Intn("+arg+") leaves some elements with zero or unequal probability").Clause = "every input element has a non-zero chance of being selected"
+				}
+				return
+			}
 		}
 	}
 	if body == nil || v == nil {
